@@ -232,6 +232,16 @@ def shared(ctx):
     """termination of covenant execution and weighing (C11) is part of 'never fail to terminate'"""
     from rules.engine import core
     core.import_rules(ctx, [c11.r3_forward_pc, c11.r4_nesting, c11.r5_length_guards, c11.r6_linear_weighing], "X11")
+    # the invariants quoted by the reviewed-site table are rules of other properties: a site discharged "because C01.R3 holds" is only
+    # discharged while that rule holds, so those rules are re-evaluated here
+    from rules.props import c01, c02, c07, c15, c16, c18, c20
+    core.import_rules(ctx, [c01.r3_equality], "X01")
+    core.import_rules(ctx, [c02.r2_input_resolution, c02.r4_output_construction], "X02")
+    core.import_rules(ctx, [c07.r2_chain_step, c07.r4_key_agreement], "X07")
+    core.import_rules(ctx, [c15.r1_selection_atoms], "X15")
+    core.import_rules(ctx, [c16.r1_builtins_first, c16.r2_create_builtins, c16.r3_no_deletion], "X16")
+    core.import_rules(ctx, [c18.r1_gate_chain], "X18")
+    core.import_rules(ctx, [c20.r1_protocol, c20.r2_confinement, c20.r4_activation], "X20")
 
 
 RULES = [r1_inventory, r2_recursion, r3_loops, shared]
